@@ -159,10 +159,10 @@ func runC15(r *Run) {
 		}
 	}
 	type ucase struct {
-		sign        bool
-		tok, class  string
-		fresh       string // user the token was minted for in this mode ("" = not fresh)
-		exotic      bool
+		sign       bool
+		tok, class string
+		fresh      string // user the token was minted for in this mode ("" = not fresh)
+		exotic     bool
 	}
 	var cases []ucase
 	users := []string{"alice", "bob@example.com", "Ünï", "a", "very-long-user-name-0123456789-0123456789-0123456789", "x y"}
